@@ -218,7 +218,7 @@ pub fn run(r: &Report, which: &str) {
         },
     };
     if c07 {
-        r.set_rule("every string of <= N atoms over {each character of ds and de, every proper prefix (len>=2) of ds and de, ds, de, ' ', '\\n', 'a', 'é'(2B), 'あ'(3B), '🧹'(4B)} per delimiter pair (strings of <= 3 atoms also embedded in 67-byte, 4 KiB multi-byte and 5 KiB fillers), tokenized by the real tokenizer; oracle = the intrinsic partition clauses of C07; non-trivial = distinct strings with >= 1 reference tag token, or ending in a multi-byte character after a failed delimiter start");
+        r.set_rule("every string of <= N atoms over {each character of ds and de, every proper prefix (len>=2) of ds and de, ds, de, a whole tag, ' ', '\\n', 'a', 'é'(2B), 'あ'(3B), '🧹'(4B)} per delimiter pair (strings of <= 3 atoms also embedded in 67-byte, 4 KiB multi-byte and 5 KiB fillers), tokenized by the real tokenizer; oracle = the intrinsic partition clauses of C07; non-trivial = distinct strings with >= 1 reference tag token, or ending in a multi-byte character after a failed delimiter start");
     } else {
         r.set_rule("every string of <= N atoms over {each character of ds and de, every proper prefix (len>=2), overlap rests, ds, de, 'a', ' '} per delimiter pair (strings of <= 3 atoms also embedded in 67-byte, 4 KiB multi-byte and 5 KiB fillers); oracle = tag spans equal the textbook leftmost-shortest scan (reference uses str::find); non-trivial = distinct strings with >= 1 reference tag and >= 1 failed partial delimiter match");
     }
@@ -228,7 +228,12 @@ pub fn run(r: &Report, which: &str) {
         if r.stopped() {
             break;
         }
-        let atoms = gen::tok_atoms(d.ds, d.de, &space.fillers, space.with_prefixes);
+        let mut atoms = gen::tok_atoms(d.ds, d.de, &space.fillers, space.with_prefixes);
+        if c07 {
+            // a whole tag as one atom: several tags (directly adjacent, behind multi-byte text)
+            // within the length bound
+            atoms.push(format!("{}a{}", d.ds, d.de));
+        }
         let ds = d.ds;
         let de = d.de;
         let counted = explore_seqs(
